@@ -153,7 +153,9 @@ def exec (env : Env) (r : Run) : Instr → Run
       let s := r.st.lreStart name h.decls (h.getNamespace "")
       -- `ElemLiteralResult::init`: a plain `xmlns="u"` attribute is not skipped (only `xmlns:p` is) and
       -- becomes an AVT named `xmlns`, evaluated with the other attributes in document order
-      let xmlnsAvts : List Att := (nsdecls.filter (fun n => n.pfx = "")).map (fun n => ⟨⟨"", "xmlns"⟩, n.uri⟩)
+      let xmlnsAvts : List Att :=
+        if r.st.v.noXmlnsAvt then []
+        else (nsdecls.filter (fun n => n.pfx = "")).map (fun n => ⟨⟨"", "xmlns"⟩, n.uri⟩)
       let s := s.addAtts (xmlnsAvts ++ atts)
       let r := execList { env with stack := stack', parent := h } { r with st := s, tags := "L" :: r.tags } false body
       { r with st := r.st.endElement name }
